@@ -305,7 +305,38 @@ def build_workflow(L: Lang11, recipe: dict, idx: int):
     if len(W.nodes) > MAX_NODES:
         W.error = "TooLarge: more than %d concept nodes" % MAX_NODES
         W.graph = None
+        return W
+    repair_supertypes(L, W)
     return W
+
+
+def repair_supertypes(L: Lang11, W) -> None:
+    """C07/C10 (not C11) state that a node carries ALL canonical supertypes of its type and
+    that containsType is closed under them.  Where the implementation's graph misses some,
+    that is reported once per workflow under its own signature, and the remaining checks run
+    on the graph with the missing triples added (W.graph_orig keeps the original)."""
+    from rdflib import Graph
+    from transforge.namespace import TF
+    missing = []
+    for n in W.nodes:
+        if n in W.type and L.is_canon(W.type[n]):
+            have = {repr(s) for s in W.sups[n]}
+            for s_ in canon_supers(L, W.type[n], strict=False):
+                if repr(s_) not in have:
+                    missing.append((n, s_))
+    W.missing = missing
+    W.graph_orig = None
+    if not missing:
+        return
+    W.graph_orig = Graph()
+    for t in W.graph:
+        W.graph_orig.add(t)
+    for n, s_ in missing:
+        W.graph.add((n, TF.subtypeOf, L.ty2uri[repr(s_)]))
+    for n in W.nodes:
+        for o in list(W.graph.objects(n, TF.subtypeOf)):
+            W.graph.add((W.root, TF.containsType, o))
+    index_graph(L, W)
 
 
 def _tt(x):
@@ -416,7 +447,7 @@ def derive_task(rng: random.Random, L: Lang11, W, penultimate=True, dag=None, ma
         if n in W.inputs and rng.random() < 0.5:
             steps[sid]["input"] = True
         if depth > 0 and W.deps[n]:
-            k = rng.choice([0, 1, 1, 1, 2, 2, 3])
+            k = rng.choice([1, 1, 1, 2, 2, 3])
             direct = W.froms[n]
             for _ in range(k):
                 if len(steps) >= max_steps:
@@ -431,8 +462,20 @@ def derive_task(rng: random.Random, L: Lang11, W, penultimate=True, dag=None, ma
     start = out
     if penultimate and W.froms[out] and rng.random() < 0.2:
         start = rng.choice(W.froms[out])
-    o = mk(start, rng.choice([0, 1, 2, 2, 3, 3]), False)
+    o = mk(start, rng.choice([0, 1, 1, 2, 2, 3, 3]), False)
     T = {"steps": steps, "outs": [o], "origin": origin}
+    if dag:
+        # share steps: a step may precede several others as long as its node is a
+        # dependency of theirs (DAG-shaped tasks)
+        ids = list(steps)
+        for _ in range(rng.choice([1, 1, 2, 3])):
+            p, c = rng.choice(ids), rng.choice(ids)
+            if p == c or c in steps[p]["from"] or c == o:
+                continue
+            if W.nodes[origin[c]] in W.deps[W.nodes[origin[p]]]:
+                steps[p]["from"].append(c)
+                if not acyclic(T):
+                    steps[p]["from"].pop()
     return T if acyclic(T) else derive_task(rng, L, W, penultimate, False, max_steps)
 
 
@@ -1114,7 +1157,7 @@ def assignable(L: Lang11, W, T, sw: dict, strict_types=False):
             for s in set(steps.values()):
                 if S[s]["types"] and not any(repr(t) in present for t in S[s]["types"]):
                     return None
-        return {k: W.num[cand[k][0]] for k in keys}
+        return {str(k): W.num[cand[k][0]] for k in keys}
     parents = {}
     for p, c in links:
         parents.setdefault(c, []).append(p)
@@ -1154,7 +1197,7 @@ def assignable(L: Lang11, W, T, sw: dict, strict_types=False):
 
 HDR = """From Coq Require Import List Arith Bool.
 Import ListNotations.
-From TF Require Import Base.Hier Base.Ty Bag.Union Bag.Bag Bag.BagTy Query.Bgp Query.Gen.
+From TF Require Import Base.Hier Base.Ty Bag.Union Bag.Bag Bag.BagTy Query.Bgp Query.Gen Query.Check.
 Definition epred (p : pred) : nat :=
   match p with PRdfType => 0 | POutput => 1 | PInput => 2 | PFrom => 3 | PDepends => 4
   | PVia => 5 | PSubtypeOf => 6 | PContainsType => 7 | PContainsOperation => 8
@@ -1452,7 +1495,7 @@ class _Timeout(Exception):
     pass
 
 
-def timed_query(ds, text: str, limit: int = 6):
+def timed_query(ds, text: str, limit: int = 3):
     """rdflib's evaluation strategy is exponential on some of these queries; a query that
     takes too long is skipped for the rdflib verdicts (counted), never guessed."""
     import signal
@@ -1470,6 +1513,62 @@ def timed_query(ds, text: str, limit: int = 6):
         signal.signal(signal.SIGALRM, old)
 
 
+def task_from_query(L: Lang11, q):
+    """The task as the TransformationQuery object holds it (after from_list /
+    parse_shortcuts), objects in the order its store lists them: this is the input of
+    the model (the store's order decides variable numbering and Bag insertion order)."""
+    from transforge.namespace import TF
+    g, root = q.graph, q.root
+    FROM = TF["from"]
+    outs = list(g.objects(root, TF.output))
+    ids = {}
+    todo = list(outs)
+    while todo:
+        n = todo.pop(0)
+        if n in ids:
+            continue
+        ids[n] = len(ids)
+        todo += list(g.objects(n, FROM))
+    steps = {}
+    for n, i in ids.items():
+        tys, ops, unknown = [], [], []
+        for o in g.objects(n, TF.type):
+            (tys if o in L.uri2ty else unknown).append(L.uri2ty.get(o, str(o)))
+        for o in g.objects(n, TF.via):
+            (ops if o in L.uri2op else unknown).append(L.uri2op.get(o, str(o)))
+        steps[i] = {"types": tys, "ops": ops, "from": [ids[o] for o in g.objects(n, FROM)],
+                    "input": (root, TF.input, n) in g, "unknown": unknown}
+    return {"steps": steps, "outs": [ids[o] for o in outs]}
+
+
+def task_conjuncts(T):
+    """A task graph as a set of facts over variables (for comparison up to renaming)."""
+    live = reachable(T)
+    out = []
+    for s in live:
+        d = T["steps"][s]
+        for t in d["types"]:
+            out.append(("tp", (("v", s), ("lnk", "type"), ("ty", repr(t)))))
+        for o in d["ops"]:
+            out.append(("tp", (("v", s), ("lnk", "via"), ("op", o))))
+        for c in d["from"]:
+            out.append(("tp", (("v", s), ("lnk", "from"), ("v", c))))
+        if d["input"]:
+            out.append(("tp", (("wf",), ("lnk", "input"), ("v", s))))
+        for u in d.get("unknown", ()):
+            out.append(("tp", (("v", s), ("lnk", "unknown"), ("iri", u))))
+    for o in T["outs"]:
+        out.append(("tp", (("wf",), ("lnk", "output"), ("v", o))))
+    return out
+
+
+def same_task(T, Tq) -> bool:
+    a, b = task_conjuncts(T), task_conjuncts(Tq)
+    if len(reachable(T)) != len(reachable(Tq)):
+        return False
+    return iso_conjuncts(a, b)
+
+
 def observe_impl(L: Lang11, Ws, ds, case, with_rdflib_components: bool, alt_style: str | None):
     """Everything the implementation says about one case."""
     from transforge.graph import CyclicTransformationGraphError
@@ -1485,6 +1584,7 @@ def observe_impl(L: Lang11, Ws, ds, case, with_rdflib_components: bool, alt_styl
         ob["error"] = f"{type(e).__name__}: {e}"
         return ob
     ob["sparql"] = text
+    ob["tq"] = task_from_query(L, q)
     try:
         base, tree = read_query(text)
         pre, flow, gvar = flatten(tree)
@@ -1496,7 +1596,10 @@ def observe_impl(L: Lang11, Ws, ds, case, with_rdflib_components: bool, alt_styl
     ob["preds"] = {x for c in pre + flow for tp in ([c[1:]] if c[0] == "tp" else c[1]) for x in tp[1][1:]}
     roots = {W.root: i for i, W in enumerate(Ws)}
     # the query as deployed, on rdflib
+    t_q = time.time()
     rows = timed_query(ds, text)
+    if time.time() - t_q > 0.5:
+        with_rdflib_components = False
     if rows is None:
         ob["impl"] = None
     else:
@@ -1523,12 +1626,36 @@ def observe_impl(L: Lang11, Ws, ds, case, with_rdflib_components: bool, alt_styl
             t2 = q2.sparql()
             b2, tree2 = read_query(t2)
             pre2, flow2, gvar2 = flatten(tree2)
-            ob["alt"] = {"style": alt_style, "conj": norm_conjuncts(L, pre2 + flow2, gvar2), "sparql": t2}
+            ob["alt"] = {"style": alt_style, "conj": norm_conjuncts(L, pre2 + flow2, gvar2), "sparql": t2,
+                         "tq": task_from_query(L, q2),
+                         "own": [bgp_match(W.graph, W.root, pre2 + flow2, gvar2) for W in Ws]}
             rows2 = timed_query(ds, t2) if ob["impl"] is not None else None
             ob["alt"]["impl"] = None if rows2 is None else [W.root in {r.workflow for r in rows2} for W in Ws]
         except Exception as e:
             ob["alt"] = {"style": alt_style, "error": f"{type(e).__name__}: {e}"}
     return ob
+
+
+def super_witness(L: Lang11, W):
+    """A task that asks exactly for the supertype the unrepaired graph does not record."""
+    orig = Wf()
+    orig.graph, orig.root = W.graph_orig, W.root
+    index_graph(L, orig)
+    n, s_ = W.missing[0]
+    k = W.num[n]
+    n0 = orig.nodes[k] if k < len(orig.nodes) else n
+    ops = [W.op[n]] if (n in W.op and not isinstance(W.op[n], tuple)) else []
+    if n in W.outputs:
+        T = {"steps": {0: {"types": [s_], "ops": ops, "from": [], "input": False}}, "outs": [0], "origin": {}}
+    else:
+        T = {"steps": {0: {"types": [], "ops": [], "from": [1], "input": False},
+                       1: {"types": [s_], "ops": ops, "from": [], "input": False}}, "outs": [0], "origin": {}}
+    q = make_query(L, T, "uri", {})
+    base, tree = read_query(q.sparql())
+    pre, flow, gvar = flatten(tree)
+    own = bgp_match(orig.graph, orig.root, pre + flow, gvar)
+    strict = assignable(L, orig, T, {}, strict_types=True) is not None
+    return T, own, strict
 
 
 def graph_invariants(L: Lang11, W) -> list[str]:
@@ -1630,9 +1757,34 @@ def case_payload(L, Ws, case, ob=None, wi=None):
     return p
 
 
+MODEL_FILES = ["Query/Bgp.v", "Query/Gen.v", "Query/GenProofs.v", "Query/Spec.v", "Query/Assign.v",
+               "Query/Check.v"]
+
+
+def ensure_model_built() -> None:
+    """The Query theories may not be listed in _CoqProject yet: compile what is stale, in
+    dependency order (a no-op once `make` builds them)."""
+    import subprocess
+    listed = (C.COQ / "_CoqProject").read_text()
+    if all(("theories/" + f) in listed for f in MODEL_FILES):
+        return
+    newest = max((p.stat().st_mtime for p in (C.COQ / "theories" / "Bag").glob("*.vo")), default=0)
+    for f in MODEL_FILES:
+        src = C.COQ / "theories" / f
+        vo = src.with_suffix(".vo")
+        if not vo.exists() or vo.stat().st_mtime < max(src.stat().st_mtime, newest):
+            r = subprocess.run(["coqc", "-Q", "theories", "TF", "-Q", "props", "TFP", "theories/" + f],
+                cwd=C.COQ, timeout=600, stdout=subprocess.PIPE, stderr=subprocess.STDOUT, text=True)
+            if r.returncode != 0:
+                raise RuntimeError(f"coqc failed on {f}:\n{r.stdout[-2000:]}")
+        newest = max(newest, vo.stat().st_mtime)
+
+
 def main(tier: str, seed: int, replay: str | None = None) -> int:
     C.force_repo_on_path()
     rep = C.Report(PID, tier, seed)
+    C.ensure_built()
+    ensure_model_built()
     rep.proof_stage()
     rng = random.Random(seed)
     stats = Counter()
@@ -1640,9 +1792,17 @@ def main(tier: str, seed: int, replay: str | None = None) -> int:
         d = json.loads(open(replay).read())
         world = world_from_payload(d)
     elif tier == "quick":
-        world = build_world(rng, 22, 3, 3, stats)
+        world = build_world(rng, 16, 3, 3, stats)
     else:
         world = build_world(rng, 150, 3, 5, stats)
+    if replay:
+        # a replay is diagnostic: keep the evidence of the last full run
+        ev = C.EVID / f"{PID}.json"
+        keep = ev.read_text() if ev.exists() else None
+        rc = run(rep, world, stats, "replay", rng)
+        if keep is not None:
+            ev.write_text(keep)
+        return rc
     return run(rep, world, stats, tier, rng)
 
 
@@ -1665,6 +1825,15 @@ def world_from_payload(d):
 
 def run(rep, world, stats, tier, rng) -> int:
     t0 = time.time()
+    shown = Counter()
+
+    def viol(name, payload, **kw):
+        """at most a handful of replay files per kind and root cause"""
+        key = (name.split("_")[0], kw.get("signature"))
+        shown[key] += 1
+        stats["violations:%s:%s" % key] += 1
+        if shown[key] <= 4:
+            rep.violation(name, payload, **kw)
     # ---- implementation
     obs_impl = []
     emitted_preds = set()
@@ -1686,15 +1855,27 @@ def run(rep, world, stats, tier, rng) -> int:
     t_impl = time.time() - t0
     # ---- model
     blocks = []
+    evalmaps = []
     for li, (L, Ws, ds, cases) in enumerate(world):
         txt = [f"Definition H_{li} := {L.h.coq()}."]
         for wi, W in enumerate(Ws):
             txt.append(f"Definition G_{li}_{wi} : graph := {graph_coq(L, W)}.")
         gs = "[" + "; ".join(f"G_{li}_{wi}" for wi in range(len(Ws))) + "]"
+        txt.append(f"Eval vm_compute in map (fun G => b2n (graph_okb H_{li} {C.coq_list(L.canon, ty_coq)} G)) {gs}.")
+        emap = {}
+        nev = 1
         for ci, case in enumerate(cases):
             unfold = "true" if case["sw"].get("unfold_tree") else "false"
-            txt.append(f"Eval vm_compute in obs H_{li} {gs} {sw_coq(case['sw'])} {unfold} {task_coq(case['task'])}.")
-        blocks.append(("\n".join(txt) + "\n", len(cases)))
+            ob = obs_impl[li][ci]
+            tasks = [("p", ob.get("tq") or case["task"])]
+            if "alt" in ob and "tq" in ob["alt"]:
+                tasks.append(("a", ob["alt"]["tq"]))
+            for tag, Tm in tasks:
+                txt.append(f"Eval vm_compute in obs H_{li} {gs} {sw_coq(case['sw'])} {unfold} {task_coq(Tm)}.")
+                emap[(ci, tag)] = nev
+                nev += 1
+        evalmaps.append(emap)
+        blocks.append(("\n".join(txt) + "\n", nev))
     t1 = time.time()
     outs = C.coq_eval_blocks(f"{PID}_{tier}", HDR, blocks, nfiles=4)
     t_model = time.time() - t1
@@ -1706,19 +1887,49 @@ def run(rep, world, stats, tier, rng) -> int:
     verdicts = Counter()
     for li, (L, Ws, ds, cases) in enumerate(world):
         inv = [graph_invariants(L, W) for W in Ws]
+        okb = outs[li][0]
         for wi, W in enumerate(Ws):
             for b in inv[wi]:
                 stats["graph_invariant_broken:" + b] += 1
+            stats["graph_okb:%d" % okb[wi]] += 1
+            if bool(okb[wi]) != (not inv[wi]):
+                viol(f"graphok_{li}_{wi}", {"kind": "correspondence", "language": L.to_json(),
+                    "workflow": W.text, "recipe": W.recipe, "python_invariants_broken": inv[wi],
+                    "coq_graph_okb": okb[wi],
+                    "what": "the proved checker of the theorems' graph hypotheses and the harness disagree"},
+                    has_input=False)
+            if W.missing:
+                stats["workflows_missing_supertypes"] += 1
+                T0, own0, strict0 = super_witness(L, W)
+                n0, s0 = W.missing[0]
+                viol(f"super_{li}_{wi}", {"kind": "oracle", "language": L.to_json(),
+                    "workflows": [W.recipe], "workflow": W.text, "workflow_index": 0,
+                    "task": {"steps": {str(k): v for k, v in T0["steps"].items()}, "outs": T0["outs"]},
+                    "task_text": task_text(L, T0), "switches": {}, "case_kind": "super_witness", "home": 0,
+                    "node_type": L.tstr(W.type[n0]) if n0 in W.type else None, "missing_supertype": L.tstr(s0),
+                    "missing": [(W.num[n], L.tstr(x)) for n, x in W.missing],
+                    "verdicts": {"plain_bgp_own_matcher_on_the_unrepaired_graph": own0,
+                                 "assignable_by_is_subtype": strict0},
+                    "what": "a concept node does not carry a canonical supertype of its type (subtypeOf / "
+                            "containsType incomplete): a task asking for that supertype misses the workflow; "
+                            "the other checks of this run use the graph with the missing triples added"},
+                    has_input=(strict0 and not own0), signature=SIG_SUPER)
         spec_memo = {}
         own_all = {}
         for ci, case in enumerate(cases):
             n_eval += 1
             ob = obs_impl[li][ci]
-            rows = outs[li][ci]
+            rows = outs[li][evalmaps[li][(ci, 'p')]]
             T, sw = case["task"], case["sw"]
             stats["kind:" + case["kind"].split(":")[0]] += 1
             stats["shape:" + ("cyclic" if not acyclic(T) else "tree" if is_tree(T) else "dag")] += 1
             stats["steps:%d" % min(len(reachable(T)), 8)] += 1
+            if acyclic(T):
+                live = [T["steps"][x] for x in reachable(T)]
+                stats["tasks_with_input_mark"] += any(d["input"] for d in live)
+                stats["tasks_with_alternatives"] += any(len(d["types"]) > 1 or len(d["ops"]) > 1 for d in live)
+                stats["tasks_with_bare_step"] += any(not d["types"] and not d["ops"] for d in live)
+                stats["tasks_with_several_outputs"] += len(T["outs"]) > 1
             stats["switches:" + (",".join(sorted(k for k in sw)) or "default")] += 1
             pay = case_payload(L, Ws, case, ob)
             mstatus = rows[0][0]
@@ -1728,11 +1939,11 @@ def run(rep, world, stats, tier, rng) -> int:
                 verdicts["error:" + str(ob["error"] or me)[:20]] += 1
                 if ob["error"] != me:
                     dis += 1
-                    rep.violation(f"error_{li}_{ci}", dict(pay, kind="correspondence", impl_error=ob["error"],
+                    viol(f"error_{li}_{ci}", dict(pay, kind="correspondence", impl_error=ob["error"],
                         model=me, what="implementation and model disagree on rejecting the task"),
                         has_input=(ob["error"] == "Cycle") != (not acyclic(T)))
                 elif (me == "Cycle") != (not acyclic(T)):
-                    rep.violation(f"cycle_{li}_{ci}", dict(pay, kind="oracle", impl_error=ob["error"],
+                    viol(f"cycle_{li}_{ci}", dict(pay, kind="oracle", impl_error=ob["error"],
                         what="cycle rejection does not coincide with the task being cyclic"))
                 continue
             hdr = rows[0]
@@ -1741,7 +1952,7 @@ def run(rep, world, stats, tier, rng) -> int:
             mconj = decode_model(rows[1 + ng:1 + ng + nq])
             mpinned = decode_model(rows[1 + ng + nq:])
             if hdr[1] != 1:
-                rep.violation(f"incomplete_{li}_{ci}", dict(pay, kind="model",
+                viol(f"incomplete_{li}_{ci}", dict(pay, kind="model",
                     what="model chronology did not visit every variable (theorem hypothesis fails)"),
                     has_input=False)
             for p in ob["preds"]:
@@ -1755,27 +1966,46 @@ def run(rep, world, stats, tier, rng) -> int:
                     ([c for c in mpinned] if sw.get("by_types", True) else [])
                 if iso_conjuncts(ob["conj"], alt_model):
                     stats["pinned_bag_clauses"] += 1
-                    rep.violation(f"bag_{li}_{ci}", dict(pay, kind="correspondence",
+                    viol(f"bag_{li}_{ci}", dict(pay, kind="correspondence",
                         impl=sorted(map(repr, ob["conj"])), model=sorted(map(repr, mconj)),
                         what="type pre-filter is the one of the pinned Bag.add, not of the repaired one"),
                         has_input=False, signature=SIG_BAG)
                 else:
                     dis += 1
                     if dis <= 6:
-                        rep.violation(f"conjuncts_{li}_{ci}", dict(pay, kind="correspondence",
+                        viol(f"conjuncts_{li}_{ci}", dict(pay, kind="correspondence",
                             impl=sorted(map(repr, ob["conj"])), model=sorted(map(repr, mconj)),
                             what="generated query differs from the model's (K_C11), up to variable renaming"),
                             has_input=False)
+            if not same_task(T, ob["tq"]):
+                viol(f"written_{li}_{ci}", dict(pay, kind="oracle", style="uri", held=ob["tq"],
+                    what="the task graph held by the query object is not the task that was written"))
             if "alt" in ob:
                 a = ob["alt"]
                 stats["alt_style:" + a["style"]] += 1
                 if "error" in a:
-                    rep.violation(f"alt_{li}_{ci}", dict(pay, kind="oracle", alt=a,
+                    viol(f"alt_{li}_{ci}", dict(pay, kind="oracle", alt=a,
                         what="the same task written differently is rejected"))
-                elif not iso_conjuncts(a["conj"], ob["conj"]) or (
-                        a["impl"] is not None and ob["impl"] is not None and a["impl"] != ob["impl"]):
-                    rep.violation(f"alt_{li}_{ci}", dict(pay, kind="oracle", alt_style=a["style"],
-                        alt_sparql=a["sparql"], what="the same task written differently gives a different query"))
+                else:
+                    arows = outs[li][evalmaps[li][(ci, "a")]]
+                    amodel = decode_model(arows[1 + arows[0][3]:1 + arows[0][3] + arows[0][2]]) if arows[0][0] == 0 else None
+                    if not same_task(T, a["tq"]):
+                        viol(f"written_{li}_{ci}", dict(pay, kind="oracle", style=a["style"], held=a["tq"],
+                            alt_sparql=a["sparql"],
+                            what="the task written as nested list / with string shortcuts is not the same task"))
+                    elif amodel is None or not iso_conjuncts(a["conj"], amodel):
+                        dis += 1
+                        viol(f"altconj_{li}_{ci}", dict(pay, kind="correspondence", style=a["style"],
+                            alt_sparql=a["sparql"], impl=sorted(map(repr, a["conj"])),
+                            model=sorted(map(repr, amodel or [])),
+                            what="query generated from the other notation differs from the model's (K_C11)"),
+                            has_input=False)
+                    elif a["own"] != ob["own"]["all"] or (
+                            a["impl"] is not None and ob["impl"] is not None and a["impl"] != ob["impl"]):
+                        viol(f"alt_{li}_{ci}", dict(pay, kind="oracle", alt_style=a["style"],
+                            alt_sparql=a["sparql"], alt_verdicts={"own": a["own"], "rdflib": a["impl"]},
+                            verdicts={"own": ob["own"]["all"], "rdflib": ob["impl"]},
+                            what="the same task written differently gives a different verdict"))
             # -- verdicts per workflow
             for wi, W in enumerate(Ws):
                 n_pairs += 1
@@ -1808,13 +2038,13 @@ def run(rep, world, stats, tier, rng) -> int:
                         sig = SIG_MEMBERSHIP
                     elif spec_b and not own["pre"] and own["flow"] and not same:
                         sig = SIG_BAG
-                    rep.violation(f"iff_{li}_{ci}_{wi}", dict(p2, kind="oracle",
+                    viol(f"iff_{li}_{ci}_{wi}", dict(p2, kind="oracle",
                         what="as a plain basic graph pattern the generated query "
                              + ("misses a workflow the task's steps can be assigned to" if spec_b
                                 else "returns a workflow the task's steps cannot be assigned to")),
                         signature=sig)
                 if spec_b != strict:
-                    rep.violation(f"super_{li}_{ci}_{wi}", dict(p2, kind="oracle",
+                    viol(f"super_{li}_{ci}_{wi}", dict(p2, kind="oracle",
                         what="assignability differs when 'canonical supertype of the node's type' is decided "
                              "by is_subtype instead of the graph's subtypeOf triples"), signature=SIG_SUPER)
                 # the deployed query on rdflib: equal, except that rdflib returns a row for an
@@ -1823,43 +2053,45 @@ def run(rep, world, stats, tier, rng) -> int:
                     if impl and not own["pre"] and own["flow"]:
                         stats["rdflib_ignores_failing_prefilter"] += 1
                     else:
-                        rep.violation(f"engine_{li}_{ci}_{wi}", dict(p2, kind="oracle",
+                        viol(f"engine_{li}_{ci}_{wi}", dict(p2, kind="oracle",
                             what="rdflib on the generated query and the plain-pattern reading disagree "
                                  "beyond the known empty-GROUP-BY behaviour"))
                 # engines on the plain pattern
                 for k, v in ob["flat"].items():
                     if v[wi] != own[k]:
-                        rep.violation(f"flat_{k}_{li}_{ci}_{wi}", dict(p2, kind="engine", component=k,
+                        viol(f"flat_{k}_{li}_{ci}_{wi}", dict(p2, kind="engine", component=k,
                             what="rdflib and the independent matcher disagree on a component read as a plain pattern"),
                             has_input=False)
                 if own["all"] != (own["pre"] and own["flow"]):
-                    rep.violation(f"join_{li}_{ci}_{wi}", dict(p2, kind="engine",
+                    viol(f"join_{li}_{ci}_{wi}", dict(p2, kind="engine",
                         what="pre-filter and flow share only ?workflow, yet all != pre and flow"), has_input=False)
                 # model verdict (proved decision procedure on the model's conjuncts)
                 if same and (mv != own["all"] or mpre != own["pre"] or mflow != own["flow"]):
                     dis += 1
-                    rep.violation(f"matchb_{li}_{ci}_{wi}", dict(p2, kind="correspondence",
+                    viol(f"matchb_{li}_{ci}_{wi}", dict(p2, kind="correspondence",
                         what="Bgp.matchc on the model's conjuncts and the matcher on the implementation's disagree"),
                         has_input=False)
                 own_all[(ci, wi)] = own["all"]
                 # metamorphic checks
                 if case["kind"] == "derived" and wi == case["home"] and not own["all"]:
-                    rep.violation(f"self_{li}_{ci}", dict(p2, kind="oracle",
+                    viol(f"self_{li}_{ci}", dict(p2, kind="oracle",
                         what="a task sub-sampled from the workflow's own graph does not match it"),
                         signature=SIG_MEMBERSHIP if (not own["pre"] and own["flow"]
                             and "via-not-in-containsOperation" in inv[wi]) else None)
                 if case["kind"].startswith("general") and case["parent"] is not None:
                     if own_all.get((case["parent"], wi)) and not own["all"]:
-                        rep.violation(f"mono_{li}_{ci}_{wi}", dict(p2, kind="oracle",
+                        viol(f"mono_{li}_{ci}_{wi}", dict(p2, kind="oracle",
                             parent_task=task_text(L, cases[case["parent"]]["task"]),
                             what="generalising a type / dropping a step lost a match"))
-                if case["kind"].startswith("absent") and own["all"]:
-                    rep.violation(f"absent_{li}_{ci}_{wi}", dict(p2, kind="oracle",
+                tested = sw.get("by_chronology", True) or (
+                    sw.get("by_operators", True) if case["kind"] == "absent_op" else sw.get("by_types", True))
+                if case["kind"].startswith("absent") and tested and own["all"]:
+                    viol(f"absent_{li}_{ci}_{wi}", dict(p2, kind="oracle",
                         what="a task requiring an operator or type that occurs in no workflow matches"))
     # vocabulary: every predicate the query tests is one the graph generator emits
     for p, pay in tested_preds.items():
         if p not in emitted_preds:
-            rep.violation("vocab_" + re.sub(r"\W+", "_", p)[-30:], dict(pay, kind="oracle", predicate=p,
+            viol("vocab_" + re.sub(r"\W+", "_", p)[-30:], dict(pay, kind="oracle", predicate=p,
                 emitted=sorted(emitted_preds),
                 what="the query tests a predicate that no generated transformation graph contains"),
                 signature=SIG_MEMBERSHIP if p.endswith("containsOperation") else None)
